@@ -147,6 +147,7 @@ def run_config(res, pid, tier, seed, config, binp, info, workdir, extra_cases=No
         bs, cases = cached[0], cached[1]
     else:
         corpus = hh.load_corpus(pid, info) if (executor is None and not skip_model and gen_override is None) else []
+        res.cov["corpus_cases_run_first"] = res.cov.get("corpus_cases_run_first", 0) + len(corpus)
         bs = corpus + list(extra_cases or []) + g(r, tier, info)
         cases = [b.case() for b in bs]
     tag = f"{pid}.{label}" + (f".{cpu}" if cpu else "")
